@@ -457,3 +457,40 @@ def c12_6(ctx: Ctx) -> RuleResult:
     res.add(run, run.node, ".variables are the tracked result's variables", ok, construct="BasicOptimizer: variables")
     res.floor = 4
     return res
+
+
+@rule(P)
+def c12_7(ctx: Ctx) -> RuleResult:
+    """Shared with C11.6."""
+    from .c11 import c11_6
+
+    r = c11_6(ctx)
+    for i in r.instances:
+        i.rule = "C12.7"
+    r.rule, r.title = "C12.7", "the tracker compares optimizer-domain values: events carry optimizer-domain results as `transformed_results` and back-transformed ones as `results`"
+    return r
+
+
+@rule(P)
+def c12_8(ctx: Ctx) -> RuleResult:
+    """The tracker is built with the options the user gave: `constraint_tolerance=None` (no feasibility filter) must
+    not be replaced by the default tolerance on the way through the plug-in's factory."""
+    import ast as _ast
+
+    from .common import value_filtered_mappings
+
+    res = RuleResult("C12.8", "DOM", "handler options reach the handler as given (an explicit None tolerance stays None)")
+    n = 0
+    for f in ctx.repo.all_funcs():
+        if f.module.name.startswith("ropt.plugins.plan") and f.name == "create" and f.cls is not None:
+            n += 1
+            bad = value_filtered_mappings(f)
+            ok = not bad
+            res.add(f, bad[0][0] if bad else f.node, f"`{f.cls.name}.create` forwards every keyword option whatever its value", ok,
+                    "" if ok else f"keyword options are dropped `if {bad[0][1]}`: `constraint_tolerance=None` (accept every result) silently becomes the default tolerance, "
+                    "so infeasible results are rejected although no tolerance was configured",
+                    construct=f"{f.cls.name}.create: options unfiltered")
+    if n == 0:
+        raise AnalysisError("no create method found under ropt.plugins.plan")
+    res.floor = 1
+    return res
